@@ -488,6 +488,7 @@ def BER_analizer(mode: Literal['counter', 'estimator'], **kwargs):
 
         if decision.lower() not in ['hard', 'soft']:
             raise ValueError("`decision` must be 'hard' or 'soft'.")
+        decision = decision.lower()
 
         I1 = eye_obj.mu1
         I0 = eye_obj.mu0
